@@ -286,6 +286,91 @@ fn constants_and_widening(rep: &mut Report) {
     }
 }
 
+// positions in which serde buffers a value before it knows the type it is for (flattened structs, tagged and untagged
+// enums): the integer types are read back from that buffer, not from the JSON text
+#[derive(serde::Serialize, serde::Deserialize, Debug, PartialEq)]
+struct BufInner {
+    u: U53,
+    i: I54,
+}
+#[derive(serde::Serialize, serde::Deserialize, Debug, PartialEq)]
+struct BufFlat {
+    name: String,
+    #[serde(flatten)]
+    inner: BufInner,
+}
+#[derive(serde::Serialize, serde::Deserialize, Debug, PartialEq)]
+#[serde(tag = "t", content = "c")]
+enum BufAdjacent {
+    U(U53),
+    I(I54),
+}
+#[derive(serde::Serialize, serde::Deserialize, Debug, PartialEq)]
+#[serde(tag = "t")]
+enum BufInternal {
+    S { u: U53, i: I54 },
+}
+#[derive(serde::Serialize, serde::Deserialize, Debug, PartialEq)]
+#[serde(untagged)]
+enum BufUntagged {
+    U(U53),
+    I(I54),
+    S(String),
+}
+
+fn buffered_positions(rep: &mut Report) {
+    let safe = SAFE as i128;
+    let mut values: Vec<i128> = vec![0, 1, -1, 2, 255, 256, -256, 65_535, 65_536, (1 << 31) - 1, 1 << 31, -(1 << 31), (1i128 << 32) - 1, 1 << 32, -(1i128 << 32), 1 << 52, safe - 1, safe, safe + 1, safe + 2, -safe + 1, -safe, -safe - 1, -safe - 2, i64::MAX as i128, i64::MIN as i128, u64::MAX as i128];
+    for k in [8, 16, 24, 40, 48, 53, 54, 62] {
+        values.push(1i128 << k);
+        values.push(-(1i128 << k));
+        values.push((1i128 << k) - 1);
+    }
+    for v in values {
+        let u_ok = v >= 0 && v <= safe;
+        let i_ok = v >= -safe && v <= safe;
+        rep.eval(1);
+        rep.count("buffered_position_probes", 5);
+        rep.cell(format!("buffered|u_ok={u_ok}|i_ok={i_ok}"));
+        let mut probe = |what: &str, json: String, accepted: Result<bool, String>, want: bool| {
+            match accepted {
+                Ok(true) if !want => viol(rep, "U53/I54", what, "accepts-out-of-range", json),
+                Ok(false) => viol(rep, "U53/I54", what, "value-changed", json),
+                Err(e) if want => viol(rep, "U53/I54", what, "rejects-in-range", format!("{json} ({e})")),
+                _ => {}
+            }
+        };
+        // U53 / I54 in each buffered position: accepted iff in range, and the value read is the value written
+        let j = format!("{{\"name\":\"n\",\"u\":{},\"i\":{}}}", if u_ok { v } else { 0 }, v);
+        probe("deserialize-flattened-i54", j.clone(), serde_json::from_str::<BufFlat>(&j).map(|x| i64::from(x.inner.i) as i128 == v).map_err(|e| e.to_string()), i_ok);
+        let j = format!("{{\"name\":\"n\",\"u\":{},\"i\":{}}}", v, if i_ok { v } else { 0 });
+        probe("deserialize-flattened-u53", j.clone(), serde_json::from_str::<BufFlat>(&j).map(|x| u64::from(x.inner.u) as i128 == v).map_err(|e| e.to_string()), u_ok);
+        let j = format!("{{\"t\":\"I\",\"c\":{v}}}");
+        probe("deserialize-adjacent-payload-i54", j.clone(), serde_json::from_str::<BufAdjacent>(&j).map(|x| matches!(x, BufAdjacent::I(y) if i64::from(y) as i128 == v)).map_err(|e| e.to_string()), i_ok);
+        let j = format!("{{\"c\":{v},\"t\":\"U\"}}");
+        probe("deserialize-adjacent-payload-u53-content-first", j.clone(), serde_json::from_str::<BufAdjacent>(&j).map(|x| matches!(x, BufAdjacent::U(y) if u64::from(y) as i128 == v)).map_err(|e| e.to_string()), u_ok);
+        let j = format!("{{\"t\":\"S\",\"u\":{},\"i\":{}}}", if u_ok { v } else { 0 }, v);
+        probe("deserialize-internally-tagged-i54", j.clone(), serde_json::from_str::<BufInternal>(&j).map(|x| matches!(x, BufInternal::S { i, .. } if i64::from(i) as i128 == v)).map_err(|e| e.to_string()), i_ok);
+        // untagged: the first variant that accepts wins; an in-range non-negative value is a U53, an in-range negative one an I54
+        let j = format!("{v}");
+        let got = serde_json::from_str::<BufUntagged>(&j);
+        match (&got, u_ok, i_ok) {
+            (Ok(BufUntagged::U(y)), true, _) if u64::from(*y) as i128 == v => {}
+            (Ok(BufUntagged::I(y)), false, true) if i64::from(*y) as i128 == v => {}
+            (Err(_), false, false) => {}
+            _ => viol(rep, "U53/I54", "deserialize-untagged", "wrong-variant-or-value", format!("{j} -> {got:?}")),
+        }
+        // round trip of a value written by serde itself
+        if i_ok && u_ok {
+            let x = BufFlat { name: "n".into(), inner: BufInner { u: U53::try_from(v as u64).unwrap(), i: I54::try_from(v as i64).unwrap() } };
+            let text = serde_json::to_string(&x).unwrap_or_default();
+            if serde_json::from_str::<BufFlat>(&text).ok().as_ref() != Some(&x) {
+                viol(rep, "U53/I54", "flattened-round-trip", "value-changed", text);
+            }
+        }
+    }
+}
+
 pub fn run(ctx: &Ctx) -> (Spec, Report) {
     let radius: i128 = 1 << 12;
     // exhaustive neighbourhoods: centres ±2^k, the limits, zero
@@ -321,6 +406,9 @@ pub fn run(ctx: &Ctx) -> (Spec, Report) {
         rep
     });
     rep.count("neighbourhood_centres", n_shards as u64);
+    if let Err((loc, msg)) = crate::report::catch(|| buffered_positions(&mut rep)) {
+        viol(&mut rep, "U53/I54", "buffered-positions", "panics", format!("at {}: {msg}", crate::report::short_loc(&loc)));
+    }
     if let Err((loc, msg)) = crate::report::catch(|| constants_and_widening(&mut rep)) {
         viol(&mut rep, "U53/I54", "constants-and-widening", "panics", format!("at {}: {msg}", crate::report::short_loc(&loc)));
     }
@@ -355,7 +443,7 @@ pub fn run(ctx: &Ctx) -> (Spec, Report) {
     let spec = Spec {
         level: "exploration",
         rule: format!(
-            "every u64/i64 within 2^12 of 0, ±2^k (k=0..63), ±(2^53-1), the 64-bit extremes — exhaustive — plus {draws} seeded draws stratified by bit length; each value goes through TryFrom, serde_json literal parsing (as its own type, as the other type - so that unsigned literals above i64::MAX reach I54 - and nested in a map of lists), conversion back, JSON and f64 round trips, narrowing, ordering against the previous value, and mixed comparisons (==, <, >, <=, >=, partial_cmp) of nine in-range anchors with the raw value whether it is in range or not; a cell is distinct by (type, operation, sign, bit length, expected accept/reject)"
+            "every u64/i64 within 2^12 of 0, ±2^k (k=0..63), ±(2^53-1), the 64-bit extremes — exhaustive — plus {draws} seeded draws stratified by bit length; each value goes through TryFrom, serde_json literal parsing (as its own type, as the other type - so that unsigned literals above i64::MAX reach I54 - and nested in a map of lists; 51 boundary values also in the positions where serde buffers before typing - flattened struct, adjacently / internally tagged payload, untagged variant), conversion back, JSON and f64 round trips, narrowing, ordering against the previous value, and mixed comparisons (==, <, >, <=, >=, partial_cmp) of nine in-range anchors with the raw value whether it is in range or not; a cell is distinct by (type, operation, sign, bit length, expected accept/reject)"
         ),
         assumptions: vec![
             "the typeshare crate is linked from VERIF_REPO/lib with release semantics (no overflow checks)".into(),
